@@ -245,6 +245,28 @@ template <class T, class S0, class S1, class S2> struct MU : UniverseBase {
             ctor_layout(cx);
         } else if (kind == K_CROSS_HANDLE) {
             cross_handle(cx);
+        } else if (kind == K_BAD_ELEM) {
+            // fault inside the history: an out-of-range scalar index through a handle (checks-on builds; elsewhere a no-op).
+            // Whether the promised error is raised is C07's clause; here the buffer, the other handles and the surroundings must be unaffected.
+#if FASTOR_BOUNDS_CHECK
+            auto bad = [&](auto &h, auto sh) {
+                constexpr int R = (int)decltype(sh)::rank; int dd[4]; dims_of(sh, dd); int ix[4] = {0, 0, 0, 0};
+                for (int k = 0; k < R; ++k) ix[k] = (int)(st.a[A_I0 + k] % (uint32_t)dd[k]);
+                int ax = (int)(st.a[A_RHS] % (uint32_t)R), over = 1 + (int)(st.a[A_X] % 3);
+                ix[ax] = (st.a[A_OP] & 1) ? dd[ax] + over - 1 : -dd[ax] - over;
+                bool wr = st.a[A_VAL] & 1; T c = smallval<T>(st.a[A_VAL]); T rd = 0;
+                Outcome o = window([&] { if (wr) elem_at(h, ix, rank_t<R>{}) = c; else rd = elem_at(h, ix, rank_t<R>{}); }, false);
+                if (cnt) { cnt->bump("fault/bad-index-delivered-inside-history"); if (o.kind == 2) cnt->bump("probe/bad-index-exception-observed"); }
+                snprintf(info.desc, sizeof info.desc, "h%d(bad index on axis %d) %s", hi, ax, wr ? "write" : "read");
+                if (o.kind == 1) { char d[200]; o.describe(d, sizeof d); v.set(si, "fault/bad_elem", opname, "%s: %s raised %s", opname, info.desc, d); }
+            };
+            switch (hi) { case 0: bad(*h0, S0{}); break; case 1: bad(*h1, S1{}); break; default: bad(*h2, S2{}); }
+            info.nontrivial = true;
+            if (!v.bad && memcmp(buf, shadow.data(), sizeof(T) * SZ) != 0) { v.set(si, "divergence/bad_elem", opname, "%s: %s modified the buffer", opname, info.desc); }
+#else
+            snprintf(info.desc, sizeof info.desc, "bad index (no-op: runtime checks are off in this build)");
+#endif
+            info.sig = mix2(0xbad, (uint64_t)hi);
         } else {
             switch (hi) { case 0: on_handle(*h0, (Ten0 *)nullptr, S0{}, kind, 0, cx); break; case 1: on_handle(*h1, (Ten1 *)nullptr, S1{}, kind, 1, cx); break; default: on_handle(*h2, (Ten2 *)nullptr, S2{}, kind, 2, cx); }
         }
